@@ -2,6 +2,7 @@ package c11
 
 import (
 	"fmt"
+	"sort"
 	"testing"
 
 	chart "helm.sh/helm/v4/pkg/chart/v2"
@@ -38,4 +39,39 @@ func TestReproGlobalLeak(t *testing.T) {
 	fmt.Println("parent :", out["p/templates/v.txt"])
 	fmt.Println("sibling:", out["p/charts/b/templates/v.txt"])
 	fmt.Println("a      :", out["p/charts/a/templates/v.txt"])
+}
+
+// TestReproRepeatedChartWithAliasedDependency is the plain-API reproduction of
+// finding alias/unexpected-path + enable/missing-though-enabled/default on the
+// R family: chart "sub" is used twice (aliases a, b) and itself depends on "x"
+// under the alias "x2". Below the second use the alias is lost: x is rendered
+// under its real name and its condition is never evaluated.
+func TestReproRepeatedChartWithAliasedDependency(t *testing.T) {
+	quiet()
+	tpl := []*chart.File{{Name: "templates/v.txt", Data: []byte("{{ .Chart.Name }}")}}
+	mk := func(name string, deps ...*chart.Dependency) *chart.Chart {
+		return &chart.Chart{Metadata: &chart.Metadata{Name: name, Version: "0.1.0", APIVersion: "v2", Dependencies: deps}, Templates: tpl, Values: map[string]any{}}
+	}
+	sub := mk("sub", &chart.Dependency{Name: "x", Version: "0.1.0", Alias: "x2", Condition: "x2.enabled"})
+	sub.AddDependency(mk("x"))
+	p := mk("p", &chart.Dependency{Name: "sub", Version: "0.1.0", Alias: "a"}, &chart.Dependency{Name: "sub", Version: "0.1.0", Alias: "b"})
+	p.AddDependency(sub)
+	user := map[string]any{"b": map[string]any{"x2": map[string]any{"enabled": false}}}
+	if err := chartutil.ProcessDependencies(p, user); err != nil {
+		t.Fatal(err)
+	}
+	vals, err := chartutil.ToRenderValues(p, user, chartutil.ReleaseOptions{Name: "r"}, nil)
+	if err != nil {
+		t.Fatal(err)
+	}
+	out, err := engine.Render(p, vals)
+	if err != nil {
+		t.Fatal(err)
+	}
+	var paths []string
+	for k := range out {
+		paths = append(paths, k)
+	}
+	sort.Strings(paths)
+	fmt.Println("user sets b.x2.enabled=false; rendered:", paths)
 }
